@@ -70,14 +70,13 @@ func (vs *VoteSummary) SetPrevotePowers(vals []Validator, prevotes map[string]gc
 
 	var maxHash string
 	var maxPow uint64
-	var bs bitset.BitSet
+	var bs, voted bitset.BitSet
 	for blockHash, proof := range prevotes {
 		proof.SignatureBitSet(&bs)
+		voted.InPlaceUnion(&bs)
 		var blockPow uint64
 		for i, ok := bs.NextSet(0); ok && int(i) < len(vals); i, ok = bs.NextSet(i + 1) {
-			valPow := vals[int(i)].Power
-			vs.TotalPrevotePower += valPow
-			blockPow += valPow
+			blockPow += vals[int(i)].Power
 		}
 
 		vs.PrevoteBlockPower[string(blockHash)] = blockPow
@@ -89,6 +88,11 @@ func (vs *VoteSummary) SetPrevotePowers(vals []Validator, prevotes map[string]gc
 		}
 	}
 
+	// A validator may have signed more than one block hash in the same round.
+	// Its power counts toward every block it signed,
+	// but only once toward the total power present.
+	vs.TotalPrevotePower = distinctPower(vals, &voted)
+
 	vs.MostVotedPrevoteHash = maxHash
 }
 
@@ -99,14 +103,13 @@ func (vs *VoteSummary) SetPrecommitPowers(vals []Validator, precommits map[strin
 
 	var maxHash string
 	var maxPow uint64
-	var bs bitset.BitSet
+	var bs, voted bitset.BitSet
 	for blockHash, proof := range precommits {
 		proof.SignatureBitSet(&bs)
+		voted.InPlaceUnion(&bs)
 		var blockPow uint64
 		for i, ok := bs.NextSet(0); ok && int(i) < len(vals); i, ok = bs.NextSet(i + 1) {
-			valPow := vals[int(i)].Power
-			vs.TotalPrecommitPower += valPow
-			blockPow += valPow
+			blockPow += vals[int(i)].Power
 		}
 
 		vs.PrecommitBlockPower[string(blockHash)] = blockPow
@@ -118,7 +121,22 @@ func (vs *VoteSummary) SetPrecommitPowers(vals []Validator, precommits map[strin
 		}
 	}
 
+	// A validator may have signed more than one block hash in the same round.
+	// Its power counts toward every block it signed,
+	// but only once toward the total power present.
+	vs.TotalPrecommitPower = distinctPower(vals, &voted)
+
 	vs.MostVotedPrecommitHash = maxHash
+}
+
+// distinctPower returns the sum of the powers of the validators
+// whose index is set in voted, counting every validator once.
+func distinctPower(vals []Validator, voted *bitset.BitSet) uint64 {
+	var pow uint64
+	for i, ok := voted.NextSet(0); ok && int(i) < len(vals); i, ok = voted.NextSet(i + 1) {
+		pow += vals[int(i)].Power
+	}
+	return pow
 }
 
 func (vs *VoteSummary) Reset() {
